@@ -1,4 +1,5 @@
 import GopatchModel.MetaP
+import GopatchModel.Spec.LoaderSpec
 namespace Gopatch.C19
 open Gopatch.Sec
 
@@ -125,5 +126,18 @@ including the end-of-file offset after a trailing newline (which stays on the la
 example : position [64, 64, 10, 118, 97, 114, 32, 120, 10] 9 = (2, 7) ∧
           position [64, 64, 10, 118, 97, 114, 32, 120, 10] 3 = (2, 1) ∧
           position [64, 64, 10, 118, 97, 114, 32, 120] 8 = (2, 6) := by decide
+
+/-- **A patch that does not load stops the run before anything is rewritten**: `loadPatches` fails at the first source
+that cannot be opened, parsed or compiled - every source before it did load - and hands over no program at all, so the
+per-file loop never starts; the failure is that source (the diagnostic names it). -/
+theorem a_patch_that_does_not_load_stops_the_run (good : Load.Src → Bool) (srcs l : List Load.Src) (s : Load.Src)
+    (h : Load.loadAll good srcs = (l, some s)) :
+    good s = false ∧ ∃ pre post, srcs = pre ++ s :: post ∧ ∀ x ∈ pre, good x = true :=
+  Load.loadAll_first_bad good srcs l s h
+
+/-- ... and conversely: when every source of the plan loads, none is reported -/
+theorem all_sources_good_no_failure (good : Load.Src → Bool) (srcs : List Load.Src) (h : ∀ s ∈ srcs, good s = true) :
+    Load.loadAll good srcs = (srcs, none) :=
+  Load.loadAll_all_good good srcs h
 
 end Gopatch.C19
